@@ -208,6 +208,24 @@ class P(Property):
                             else:
                                 ops.append('T%d' % rng.choice(ts))
                         out.append('lim.tx %s %d %s %s' % (role, own, P, ','.join(ops)))
+        # ---- every SENDING handle reads the connection's settings: requests through a clone of SendRequest (taken before any
+        #      SETTINGS / right after them), trailers on streams made by a clone, response and trailers on the send half of split()
+        for var in ('cli.clone0', 'cli.clone1', 'cli.split', 'cli.clone0.split', 'cli.clone1.split'):
+            for P in (0, 100, 166, 167, 168, 200, 1000, '-'):
+                Pt = with_layout(rng, P)
+                own = rng.choice([0, 100, MAXL])
+                out.append('lim.tx %s %d %s S,H167' % (var, own, Pt))
+                out.append('lim.tx %s %d %s H167,S,H167' % (var, own, Pt))
+                out.append('lim.tx %s %d %s S,H167,H200,T33' % (var, own, Pt))
+                out.append('lim.tx %s %d %s H167,T34,S,T34,T33,T0' % (var, own, Pt))
+                out.append('lim.tx %s %d %s H167,S,H200,T40' % (var, own, Pt))
+        for P in (0, 41, 42, 43, 75, 1000, '-'):
+            Pt = with_layout(rng, P)
+            out.append('lim.tx srv.split 167 %s S,H42,T0,T33' % Pt)
+            out.append('lim.tx srv.split 1000 %s H42,S,H42,H75,T34' % Pt)
+        for P in (0, 100, 166, 167, 168, 1000, '-'):
+            for k in (167, 200):
+                out.append('lim.txw cli.clone0 %d %s %d' % (rng.choice([0, MAXL]), with_layout(rng, P), k))
         # ---- back-pressure: the request call is parked on stream credit while the peer's SETTINGS arrive
         for P in ['-', 0, 1, 42, 166, 167, 168, 199, 200, 201, 202, 1000, MAXL] + [rng.randint(170, 2500) for _ in range(6 if quick else 60)]:
             pv = MAXL if P == '-' else P
@@ -240,6 +258,11 @@ class P(Property):
         if len(a) != len(b):
             return False
         for x, y in zip(a, b):
+            if y == 'log=~':
+                # the statement demands: no connection error.  Stream aborts next to the refusal (stop_sending, reset) are free
+                if not x.startswith('log=') or 'close' in x:
+                    return False
+                continue
             if y.endswith('+'):
                 # "a HEADERS frame was written": its content is judged by the reference decoder in extra_checks
                 if not x.startswith(y[:-1]) or x[len(y) - 1:] in ('-', '') or x[len(y) - 1:].startswith('?'):
@@ -264,6 +287,8 @@ class P(Property):
                 if len(p) == 3 and p[1] == 'ok':
                     lines.append('q.ref ' + p[2])
                     want.append((c, i, 'ok ' + fields_str(expected_fields('cli', 'H', int(w[4])))))
+            elif w[0] == 'lim.tx' and False:
+                pass
             elif w[0] == 'lim.tx':
                 ops = [o for o in w[4].split(',')]
                 toks = i.split()[1:]
@@ -271,7 +296,7 @@ class P(Property):
                     p = tok.split(':')
                     if o[0] in 'HT' and len(p) == 3 and p[1] == 'ok':
                         lines.append('q.ref ' + p[2])
-                        want.append((c, i, 'ok ' + fields_str(expected_fields(w[1], o[0], int(o[1:])))))
+                        want.append((c, i, 'ok ' + fields_str(expected_fields(w[1].split('.')[0], o[0], int(o[1:])))))
         viol = []
         if lines:
             res = run_cases(ctx['model_exe'], lines)
